@@ -1340,3 +1340,31 @@ def check_element_geometry(prog, report):
                  'level properties', fi.where(),
                  'level_time = levels[0], level_space = levels[1]',
                  construct='Element: level properties')
+
+
+def check_gmsh(prog, report):
+    """Mesh.gmsh(): the dump lists exactly the vertices and the leaves."""
+    fi = prog.func(M, 'Mesh.gmsh')
+    ok_nodes = ok_el = False
+    for n in ast.walk(fi.node):
+        if isinstance(n, ast.Call) and isinstance(
+                n.func, ast.Attribute) and n.func.attr == 'format' and \
+                isinstance(n.func.value, ast.Constant) and isinstance(
+                    n.func.value.value, str) and len(n.args) == 1:
+            fmt = n.func.value.value
+            arg = text(n.args[0]).replace(' ', '')
+            if fmt.endswith('$Nodes\n{}\n'):
+                ok_nodes = arg == 'len(self.vertices)'
+            if '$Elements\n{}\n' in fmt:
+                ok_el = arg == 'len(self.leaf_elements)'
+    loops = [n for n in ast.walk(fi.node) if isinstance(n, ast.For)]
+    it = sorted(text(l.iter).replace(' ', '') for l in loops)
+    ok_loops = it.count('self.vertices') == 2 and \
+        'enumerate(self.leaf_elements)' in it
+    report.check(ok_nodes and ok_el and ok_loops, 'R-gmsh', 'Mesh.gmsh',
+                 fi.where(),
+                 'the node count is len(vertices), the element count is the '
+                 'number of leaves, and the body lists every vertex and '
+                 'every leaf once (nodes=%s elements=%s loops=%s)' %
+                 (ok_nodes, ok_el, it),
+                 construct='Mesh.gmsh: counts and listings')
